@@ -213,11 +213,18 @@ def eval_ref(c, rec, cl):
     reg = region(text, cl)
     signed = armor.cleartext_signed_octets(text)
     pkts = b''
-    for kid in c['signers']:
+    hset = [sigkit.HASH_IDS[(sigkit.HASH_IDS.index(c['halg']) + i) % len(sigkit.HASH_IDS)] for i in range(len(c['signers']))]
+    for kid, h in zip(c['signers'], hset):
         sec = keypool.ref_secret(kid)
-        body = rsig.sign(sec, 0x01, c['halg'], ('text', signed), keypool.std_hashed(1600000000, sec.pub.fingerprint), keypool.sp(16, sec.pub.keyid))
+        body = rsig.sign(sec, 0x01, h, ('text', signed), keypool.std_hashed(1600000000, sec.pub.fingerprint), keypool.sp(16, sec.pub.keyid))
         pkts += wire.build_packet(2, body)
-    out = armor.write_cleartext(text.replace('\r\n', '\n'), pkts, [sigkit.HASHES[c['halg']]])
+    names = []
+    for h in hset:
+        if sigkit.HASHES[h] not in names:
+            names.append(sigkit.HASHES[h])
+    style = ['comma', 'lines', 'comma-space'][(len(text) + len(c['signers'])) % 3]
+    rec.note('foreign-hash-header-style/' + style + ('/several' if len(names) > 1 else '/one'))
+    out = armor.write_cleartext(text.replace('\r\n', '\n'), pkts, names, hash_style=style)
     try:
         m = pgpy.PGPMessage.from_blob(transport(out, c['form']))
         if m.type != 'cleartext':
